@@ -19,7 +19,7 @@ use ssri::Integrity;
 use walkdir::WalkDir;
 
 #[cfg(any(feature = "async-std", feature = "tokio"))]
-use crate::async_lib::{AsyncBufReadExt, AsyncWriteExt};
+use crate::async_lib::AsyncBufReadExt;
 use crate::content::path::content_path;
 use crate::errors::{IoErrorExt, Result};
 use crate::put::WriteOpts;
@@ -125,20 +125,21 @@ pub async fn insert_async<'a>(cache: &'a Path, key: &'a str, opts: WriteOpts) ->
     })
     .with_context(|| format!("Failed to serialize entry with key `{key}`"))?;
 
-    let mut buck = crate::async_lib::OpenOptions::new()
-        .create(true)
-        .append(true)
-        .open(&bucket)
-        .await
-        .with_context(|| format!("Failed to create or open index bucket at {bucket:?}"))?;
-
     let out = format!("\n{}\t{}", hash_entry(&stringified), stringified);
-    buck.write_all(out.as_bytes())
-        .await
+    // Append the record with one blocking write on a plain file, like `insert`.
+    // The runtimes' buffered files are no substitute: tokio's splits a record
+    // larger than its buffer into several writes (which concurrent appenders
+    // can splice), and async-std's keeps a record whose write failed and
+    // writes it again when the file is dropped, after the error was reported.
+    let target = bucket.clone();
+    let appended = crate::async_lib::spawn_blocking(move || -> std::io::Result<()> {
+        let mut buck = OpenOptions::new().create(true).append(true).open(target)?;
+        buck.write_all(out.as_bytes())?;
+        buck.flush()
+    })
+    .await;
+    crate::async_lib::unwrap_joinhandle_value(appended)
         .with_context(|| format!("Failed to write to index bucket at {bucket:?}"))?;
-    buck.flush()
-        .await
-        .with_context(|| format!("Failed to flush bucket at {bucket:?}"))?;
     Ok(opts
         .sri
         .or_else(|| "sha1-deadbeef".parse::<Integrity>().ok())
